@@ -342,49 +342,49 @@ func (c *Ctx) backlogBound() {
 	bm := func(f string) *types.Var { return c.field("neutrino", "blockManager", f) }
 	bhs := func(m string) *types.Func { return c.method("headerfs", "BlockHeaderStore", m) }
 	_, _ = bm, bhs
-		fn := c.fn(fnSince)
-		res := c.lockResults()
-		key := lockKey{bm("newFilterHeadersMtx")}
-		acc := accessesOf(fn, bm("filterHeaderTip"), nil)
-		okL := len(acc) >= 1
-		for _, a := range acc {
-			if _, held := res[fn].mustHold[a.in][key]; !held {
-				okL = false
-			}
+	fn := c.fn(fnSince)
+	res := c.lockResults()
+	key := lockKey{bm("newFilterHeadersMtx")}
+	acc := accessesOf(fn, bm("filterHeaderTip"), nil)
+	okL := len(acc) >= 1
+	for _, a := range acc {
+		if _, held := res[fn].mustHold[a.in][key]; !held {
+			okL = false
 		}
-		c.verdict(okL, c.nm(fn)+" | filterHeaderTip read under newFilterHeadersMtx", c.P.Pos(fn.Pos()), "read lock held", "the backlog bound is read without newFilterHeadersMtx")
-		// loop i := height+1; i <= bestHeight
-		fetch := bhs("FetchHeaderByHeight")
-		ctor := c.funcObj("blockntfns", "NewBlockConnected")
-		okLoop := false
-		for _, f := range find(fn, callTo(fetch)) {
-			a := argsOf(f)[0]
-			phi, ok := a.(*ssa.Phi)
-			if !ok {
-				continue
-			}
-			init, bound := false, false
-			for _, e := range phi.Edges {
-				if b, ok := e.(*ssa.BinOp); ok && b.Op == token.ADD && b.X == ssa.Value(fn.Params[1]) {
-					if k, isC := ir.ConstInt(b.Y); isC && k == 1 {
-						init = true
-					}
+	}
+	c.verdict(okL, c.nm(fn)+" | filterHeaderTip read under newFilterHeadersMtx", c.P.Pos(fn.Pos()), "read lock held", "the backlog bound is read without newFilterHeadersMtx")
+	// loop i := height+1; i <= bestHeight
+	fetch := bhs("FetchHeaderByHeight")
+	ctor := c.funcObj("blockntfns", "NewBlockConnected")
+	okLoop := false
+	for _, f := range find(fn, callTo(fetch)) {
+		a := argsOf(f)[0]
+		phi, ok := a.(*ssa.Phi)
+		if !ok {
+			continue
+		}
+		init, bound := false, false
+		for _, e := range phi.Edges {
+			if b, ok := e.(*ssa.BinOp); ok && b.Op == token.ADD && b.X == ssa.Value(fn.Params[1]) {
+				if k, isC := ir.ConstInt(b.Y); isC && k == 1 {
+					init = true
 				}
 			}
-			for _, r := range ir.Refs(phi) {
-				if b, ok := r.(*ssa.BinOp); ok && b.Op == token.LEQ && b.X == ssa.Value(phi) && loadsField(bm("filterHeaderTip"))(b.Y) {
-					bound = true
-				}
-			}
-			// the event built uses the same height
-			same := false
-			for _, cc := range find(fn, callTo(ctor)) {
-				ca := ir.CallOf(cc).Args
-				same = ca[1] == ssa.Value(phi) && ir.DerivesFrom(ca[0], func(x ssa.Value) bool { return x == f.(ssa.Value) })
-			}
-			okLoop = init && bound && same
 		}
-		c.verdict(okLoop, c.nm(fn)+" | backlog = connected(header@i, i) for i = height+1 .. filterHeaderTip", c.P.Pos(fn.Pos()), "loop bounds and payload as tabled", "the backlog loop does not cover exactly height+1 .. filterHeaderTip with matching header and height")
+		for _, r := range ir.Refs(phi) {
+			if b, ok := r.(*ssa.BinOp); ok && b.Op == token.LEQ && b.X == ssa.Value(phi) && loadsField(bm("filterHeaderTip"))(b.Y) {
+				bound = true
+			}
+		}
+		// the event built uses the same height
+		same := false
+		for _, cc := range find(fn, callTo(ctor)) {
+			ca := ir.CallOf(cc).Args
+			same = ca[1] == ssa.Value(phi) && ir.DerivesFrom(ca[0], func(x ssa.Value) bool { return x == f.(ssa.Value) })
+		}
+		okLoop = init && bound && same
+	}
+	c.verdict(okLoop, c.nm(fn)+" | backlog = connected(header@i, i) for i = height+1 .. filterHeaderTip", c.P.Pos(fn.Pos()), "loop bounds and payload as tabled", "the backlog loop does not cover exactly height+1 .. filterHeaderTip with matching header and height")
 }
 
 // ---- event emission points ----
